@@ -3,6 +3,7 @@
 -/
 import Drx.Spec.LingoPrint
 namespace Drx.Spec
+set_option linter.unusedSimpArgs false
 
 /-- nothing that follows can continue an expression at level ≥ lvl -/
 def Follow (lvl : Nat) : List Tok → Prop
@@ -142,79 +143,6 @@ theorem resolve_of_resolvesTo (env : Env) (n : Name) (k : VarKind) (h : resolves
     rw [heq, h.1, h.2]
   · cases h
 
-mutual
-/-- the fragment of the round-trip theorem: literals, symbols, variables (classified by `env` as the tree says), unary and infix
-    operators, `field`, function calls -/
-def Frag (env : Env) : Expr → Prop
-  | .int _ => True
-  | .str _ => True
-  | .float _ _ => True
-  | .sym _ => True
-  | .var k n => PlainId n ∧ resolvesTo env n k = true
-  | .un _ a => Frag env a
-  | .bin _ a b => Frag env a ∧ Frag env b
-  | .field a => Frag env a
-  | .call f as => PlainId f ∧ env.isVar f = false ∧ FragL env as
-  | .list as => FragL env as
-  | .chunk _ a b d => Frag env a ∧ Frag env b ∧ Frag env d
-  | _ => False
-def FragL (env : Env) : List Expr → Prop
-  | [] => True
-  | e :: es => Frag env e ∧ FragL env es
-end
-
-mutual
-/-- fuel that is certainly enough to read the printed expression back -/
-def fuelOf : Expr → Nat
-  | .bin _ a b => fuelOf a + fuelOf b + 30
-  | .un _ a => fuelOf a + 2
-  | .field a => fuelOf a + 4
-  | .call _ as => fuelOfL as + 30
-  | .list as => fuelOfL as + 30
-  | .chunk _ a b d => fuelOf a + fuelOf b + fuelOf d + 30
-  | _ => 4
-def fuelOfL : List Expr → Nat
-  | [] => 0
-  | e :: es => fuelOf e + fuelOfL es + 30
-end
-
-theorem prArgs_cons (e : Expr) (es : List Expr) : prArgs (e :: es) = prE e ++ prTail es := by
-  induction es generalizing e with
-  | nil => simp [prArgs, prTail]
-  | cons e' es ih => simp [prArgs, prTail, ih e']
-
-/-- the first token of a printed expression is not a closing parenthesis -/
-def HeadNotRp : List Tok → Prop
-  | [] => False
-  | t :: _ => t ≠ .p .rp ∧ t ≠ .p .rb ∧ t ≠ .p .colon
-
-theorem prE_head (e : Expr) (h : Frag env e) : HeadNotRp (prE e) := by
-  cases e with
-  | int n => simp [prE, HeadNotRp]
-  | str s =>
-    by_cases h0 : s = []
-    · simp [prE, strToks, h0, HeadNotRp]
-    · cases hc : nameOfConstant s <;> simp [prE, strToks, h0, hc, HeadNotRp]
-  | float d s => simp [prE, HeadNotRp]
-  | sym n => simp [prE, HeadNotRp]
-  | var k n => simp [prE, HeadNotRp]
-  | un op a => cases op <;> simp [prE, HeadNotRp, kw]
-  | bin op a b =>
-    cases hop : op.isInfix <;> simp [prE, hop, HeadNotRp, kw]
-  | field a => simp [prE, HeadNotRp, kw]
-  | call f as => simp [prE, HeadNotRp]
-  | list as => simp [prE, HeadNotRp]
-  | me => exact absurd h (by simp [Frag])
-  | mcall o m as => exact absurd h (by simp [Frag])
-  | plist as => exact absurd h (by simp [Frag])
-  | the t k as => exact absurd h (by simp [Frag])
-  | key n => exact absurd h (by simp [Frag])
-  | movie n => exact absurd h (by simp [Frag])
-  | oprop n o => exact absurd h (by simp [Frag])
-  | chunk c a b d =>
-    cases b with
-    | int n => cases n <;> simp [prE, HeadNotRp, kw]
-    | _ => simp [prE, HeadNotRp, kw]
 
 theorem kw_num (n : Nat) (k : String) : (Tok.num n).kw k = false := rfl
 theorem kw_p (x : P) (k : String) : (Tok.p x).kw k = false := rfl
@@ -391,6 +319,604 @@ theorem binOfTok_to (l : Nat) : binOfTok l (Tok.id "to".toList) = none := by
 theorem follow_of (lvl : Nat) (r : List Tok) : Follow lvl (Tok.id "of".toList :: r) := fun l _ => binOfTok_of l
 theorem follow_to (lvl : Nat) (r : List Tok) : Follow lvl (Tok.id "to".toList :: r) := fun l _ => binOfTok_to l
 
+/-! ### `the` forms, `me`, method calls, property lists: one lemma per form -/
+
+/-- not one of the words that introduce a date / time form -/
+def notDateStyle (p : Name) : Bool :=
+  let s := lowerName p
+  s != "short".toList && s != "long".toList && s != "abbr".toList && s != "abbrev".toList && s != "abbreviated".toList
+
+theorem tblDate_styles : ∀ x ∈ tblDate, x.2.1.toList = "short".toList ∨ x.2.1.toList = "abbr".toList ∨ x.2.1.toList = "long".toList := by
+  decide +kernel
+
+theorem dateIdx_none (p u : Name) (h : notDateStyle p = true) : dateIdx p u = none := by
+  simp only [notDateStyle, Bool.and_eq_true, bne_iff_ne, ne_eq] at h
+  obtain ⟨⟨⟨⟨h1, h2⟩, h3⟩, h4⟩, h5⟩ := h
+  unfold dateIdx
+  have e : (if (lowerName p = "abbrev".toList || lowerName p = "abbreviated".toList) = true then "abbr".toList else lowerName p) = lowerName p := by
+    simp only [Bool.or_eq_true, decide_eq_true_eq]
+    rw [if_neg]
+    intro hh; rcases hh with hh | hh
+    · exact h4 hh
+    · exact h5 hh
+  simp only [e, Option.map_eq_none_iff, List.find?_eq_none]
+  intro x hx
+  simp only [Bool.and_eq_true, beq_iff_eq, not_and]
+  intro hs
+  rcases tblDate_styles x hx with hh | hh | hh
+  · rw [hh] at hs; exact absurd hs.symm h1
+  · rw [hh] at hs; exact absurd hs.symm h3
+  · rw [hh] at hs; exact absurd hs.symm h2
+
+/-- a property name that is not one of the words with a special form after `the` -/
+def PlainThe (p : Name) : Prop :=
+  (Tok.id p).kw "number" = false ∧ (Tok.id p).kw "last" = false ∧ notDateStyle p = true
+
+theorem pThe_simple (f : Nat) (p : Name) (r : List Tok) (hp : PlainThe p) (ho : isObjectless p = true) :
+    pThe env (f + 1) (.id p :: r) = some (theSimple p, r) := by
+  obtain ⟨h1, h2, h3⟩ := hp
+  simp only [pThe, h1, h2, if_false, Bool.false_eq_true]
+  rcases r with _ | ⟨t, r'⟩
+  · simp [ho]
+  · cases t <;> simp [dateIdx_none p _ h3, ho]
+
+theorem pE5_the (f : Nat) (X : List Tok) (e : Expr) (r : List Tok) (h : pThe env f X = some (e, r)) :
+    pE5 env (f + 2) (kw "the" :: X) = some (e, r) := by
+  have k1 : (Tok.id ['t','h','e']).kw "the" = true := by decide
+  have k2 : (Tok.id ['t','h','e']).kw "not" = false := by decide
+  have k3 : (Tok.id ['t','h','e']).kw "sprite" = false := by decide
+  simp [kw, pE5, pSimple, k1, k2, k3, h]
+
+theorem kwOf : (Tok.id ['o','f']).kw "of" = true := by decide
+theorem kwOfIn : (Tok.id ['o','f']).kw "in" = false := by decide
+
+/-- head of the object expression is not one of the object keywords (those select the built-in tables) -/
+def objKw (t : Tok) : Bool :=
+  t.kw "sprite" || t.kw "cast" || t.kw "field" || t.kw "sound" || t.kw "menuitem" || t.kw "menu"
+
+theorem pThe_oprop (f : Nat) (p : Name) (t : Tok) (X r3 : List Tok) (e : Expr) (hp : PlainThe p) (ho : isObjectless p = false)
+    (ht : objKw t = false) (h : pE5 env f (t :: X) = some (e, r3)) :
+    pThe env (f + 1) (.id p :: kw "of" :: t :: X) = some (.oprop p e, r3) := by
+  obtain ⟨h1, h2, h3⟩ := hp
+  simp only [objKw, Bool.or_eq_false_iff] at ht
+  obtain ⟨⟨⟨⟨⟨t1, t2⟩, t3⟩, t4⟩, t5⟩, t6⟩ := ht
+  simp only [pThe, h1, h2, if_false, Bool.false_eq_true, kw]
+  simp [dateIdx_none p _ h3, ho, kwOf, t1, t2, t3, t4, t5, t6, h]
+
+theorem pThe_sprite (f : Nat) (p : Name) (k : Nat) (X r3 : List Tok) (e : Expr) (hp : PlainThe p) (ho : isObjectless p = false)
+    (hk : tblLookupName tblSprite p = some k) (h : pE5 env f X = some (e, r3)) :
+    pThe env (f + 1) (.id p :: kw "of" :: kw "sprite" :: X) = some (.the .sprite k [e], r3) := by
+  obtain ⟨h1, h2, h3⟩ := hp
+  have s1 : (Tok.id ['s','p','r','i','t','e']).kw "sprite" = true := by decide
+  simp only [pThe, h1, h2, if_false, Bool.false_eq_true, kw]
+  simp [dateIdx_none p _ h3, ho, kwOf, s1, h, hk]
+
+/-- like `PlainThe` but `number` is allowed (it is a cast / field property) -/
+def PlainThe' (p : Name) : Prop := (Tok.id p).kw "last" = false ∧ notDateStyle p = true
+
+theorem pThe_cast (f : Nat) (p : Name) (k : Nat) (X r3 : List Tok) (e : Expr) (hp : PlainThe' p) (ho : isObjectless p = false)
+    (hk : tblLookupName tblCast p = some k) (h : pE5 env f X = some (e, r3)) :
+    pThe env (f + 1) (.id p :: kw "of" :: kw "cast" :: X) = some (.the .cast k [e], r3) := by
+  obtain ⟨h2, h3⟩ := hp
+  have s1 : (Tok.id ['c','a','s','t']).kw "sprite" = false := by decide
+  have s2 : (Tok.id ['c','a','s','t']).kw "cast" = true := by decide
+  have c1 : chunkOfPlural ['c','a','s','t'] = none := by decide
+  have c2 : (Tok.id ['c','a','s','t']).kw "menuitems" = false := by decide
+  have c3 : (Tok.id ['c','a','s','t']).kw "castmembers" = false := by decide
+  have c4 : (Tok.id ['c','a','s','t']).kw "menus" = false := by decide
+  cases hn : (Tok.id p).kw "number" <;>
+  · simp only [pThe, hn, h2, if_false, if_true, Bool.false_eq_true, kw]
+    simp [dateIdx_none p _ h3, ho, kwOf, s1, s2, c1, c2, c3, c4, h, hk]
+
+theorem pThe_video (f : Nat) (p : Name) (k : Nat) (X r3 : List Tok) (e : Expr) (hp : PlainThe p) (ho : isObjectless p = false)
+    (hc : tblLookupName tblCast p = none) (hk : tblLookupName tblVideo p = some k) (h : pE5 env f X = some (e, r3)) :
+    pThe env (f + 1) (.id p :: kw "of" :: kw "cast" :: X) = some (.the .video k [e], r3) := by
+  obtain ⟨h1, h2, h3⟩ := hp
+  have s1 : (Tok.id ['c','a','s','t']).kw "sprite" = false := by decide
+  have s2 : (Tok.id ['c','a','s','t']).kw "cast" = true := by decide
+  simp only [pThe, h1, h2, if_false, Bool.false_eq_true, kw]
+  simp [dateIdx_none p _ h3, ho, kwOf, s1, s2, h, hk, hc]
+
+theorem pThe_field (f : Nat) (p : Name) (k : Nat) (X r3 : List Tok) (e : Expr) (hp : PlainThe' p) (ho : isObjectless p = false)
+    (hk : tblLookupName tblCast p = some k) (h : pE5 env f X = some (e, r3)) :
+    pThe env (f + 1) (.id p :: kw "of" :: kw "field" :: X) = some (.the .field k [e], r3) := by
+  obtain ⟨h2, h3⟩ := hp
+  have s1 : (Tok.id ['f','i','e','l','d']).kw "sprite" = false := by decide
+  have s2 : (Tok.id ['f','i','e','l','d']).kw "cast" = false := by decide
+  have s3 : (Tok.id ['f','i','e','l','d']).kw "field" = true := by decide
+  have c1 : chunkOfPlural ['f','i','e','l','d'] = none := by decide
+  have c2 : (Tok.id ['f','i','e','l','d']).kw "menuitems" = false := by decide
+  have c3 : (Tok.id ['f','i','e','l','d']).kw "castmembers" = false := by decide
+  have c4 : (Tok.id ['f','i','e','l','d']).kw "menus" = false := by decide
+  cases hn : (Tok.id p).kw "number" <;>
+  · simp only [pThe, hn, h2, if_false, if_true, Bool.false_eq_true, kw]
+    simp [dateIdx_none p _ h3, ho, kwOf, s1, s2, s3, c1, c2, c3, c4, h, hk]
+
+theorem pThe_sound (f : Nat) (p : Name) (k : Nat) (X r3 : List Tok) (e : Expr) (hp : PlainThe p) (ho : isObjectless p = false)
+    (hk : tblLookupName tblSound p = some k) (h : pE5 env f X = some (e, r3)) :
+    pThe env (f + 1) (.id p :: kw "of" :: kw "sound" :: X) = some (.the .sound k [e], r3) := by
+  obtain ⟨h1, h2, h3⟩ := hp
+  have s1 : (Tok.id ['s','o','u','n','d']).kw "sprite" = false := by decide
+  have s2 : (Tok.id ['s','o','u','n','d']).kw "cast" = false := by decide
+  have s3 : (Tok.id ['s','o','u','n','d']).kw "field" = false := by decide
+  have s4 : (Tok.id ['s','o','u','n','d']).kw "sound" = true := by decide
+  simp only [pThe, h1, h2, if_false, Bool.false_eq_true, kw]
+  simp [dateIdx_none p _ h3, ho, kwOf, s1, s2, s3, s4, h, hk]
+
+theorem pThe_menuItem (f : Nat) (p : Name) (k : Nat) (X Y r4 : List Tok) (i m : Expr) (hp : PlainThe p) (ho : isObjectless p = false)
+    (hk : tblLookupName tblMenuItem p = some k)
+    (h1' : pE5 env f X = some (i, kw "of" :: kw "menu" :: Y)) (h2' : pE5 env f Y = some (m, r4)) :
+    pThe env (f + 1) (.id p :: kw "of" :: kw "menuItem" :: X) = some (.the .menuItem k [i, m], r4) := by
+  obtain ⟨h1, h2, h3⟩ := hp
+  have s1 : (Tok.id ['m','e','n','u','I','t','e','m']).kw "sprite" = false := by decide
+  have s2 : (Tok.id ['m','e','n','u','I','t','e','m']).kw "cast" = false := by decide
+  have s3 : (Tok.id ['m','e','n','u','I','t','e','m']).kw "field" = false := by decide
+  have s4 : (Tok.id ['m','e','n','u','I','t','e','m']).kw "sound" = false := by decide
+  have s5 : (Tok.id ['m','e','n','u','I','t','e','m']).kw "menuitem" = true := by decide
+  have m1 : (Tok.id ['m','e','n','u']).kw "menu" = true := by decide
+  simp only [kw] at h1'
+  simp only [pThe, h1, h2, if_false, Bool.false_eq_true, kw]
+  simp [dateIdx_none p _ h3, ho, kwOf, s1, s2, s3, s4, s5, m1, h1', h2', hk]
+
+theorem pThe_menuName (f : Nat) (X r3 : List Tok) (m : Expr) (h : pE5 env f X = some (m, r3)) :
+    pThe env (f + 1) (kw "name" :: kw "of" :: kw "menu" :: X) = some (.the .menu 1 [m], r3) := by
+  have h1 : (Tok.id ['n','a','m','e']).kw "number" = false := by decide
+  have h2 : (Tok.id ['n','a','m','e']).kw "last" = false := by decide
+  have h3 : notDateStyle ['n','a','m','e'] = true := by decide
+  have h4 : (Tok.id ['n','a','m','e']).kw "name" = true := by decide
+  have ho : isObjectless ['n','a','m','e'] = false := by decide +kernel
+  have s1 : (Tok.id ['m','e','n','u']).kw "sprite" = false := by decide
+  have s2 : (Tok.id ['m','e','n','u']).kw "cast" = false := by decide
+  have s3 : (Tok.id ['m','e','n','u']).kw "field" = false := by decide
+  have s4 : (Tok.id ['m','e','n','u']).kw "sound" = false := by decide
+  have s5 : (Tok.id ['m','e','n','u']).kw "menuitem" = false := by decide
+  have s6 : (Tok.id ['m','e','n','u']).kw "menu" = true := by decide
+  simp only [kw]
+  simp only [pThe, h1, h2, if_false, Bool.false_eq_true]
+  simp [dateIdx_none _ _ h3, ho, kwOf, s1, s2, s3, s4, s5, s6, h, h4, h1, h2]
+
+theorem chunkPlural_facts (c : ChunkKind) : chunkOfPlural (chunkPlural c).toList = some c := by cases c <;> decide
+theorem chunkTag_facts (c : ChunkKind) : chunkOfSingular c.tag.toList = some c := by cases c <;> decide
+theorem ofRank_rank (k : Nat) (c : ChunkKind) (h : ChunkKind.ofRank k = some c) : c.rank = k := by
+  unfold ChunkKind.ofRank at h
+  split at h
+  · injection h with h; subst h; subst_vars; rfl
+  · split at h
+    · injection h with h; subst h; subst_vars; rfl
+    · split at h
+      · injection h with h; subst h; subst_vars; rfl
+      · split at h
+        · injection h with h; subst h; subst_vars; rfl
+        · cases h
+
+theorem kwNumber : (Tok.id ['n','u','m','b','e','r']).kw "number" = true := by decide
+theorem kwLast : (Tok.id ['l','a','s','t']).kw "last" = true := by decide
+theorem kwLastNumber : (Tok.id ['l','a','s','t']).kw "number" = false := by decide
+
+theorem pThe_numChunks (f : Nat) (c : ChunkKind) (X r3 : List Tok) (e : Expr) (h : pE5 env f X = some (e, r3)) :
+    pThe env (f + 1) (kw "number" :: kw "of" :: kw (chunkPlural c) :: kw "of" :: X) = some (.the .numChunks c.rank [e], r3) := by
+  simp only [kw]
+  simp only [pThe, kwNumber, if_true]
+  simp [kwNumber, kwOf, chunkPlural_facts c, h]
+
+theorem pThe_menuItems (f : Nat) (X r3 : List Tok) (e : Expr) (h : pE5 env f X = some (e, r3)) :
+    pThe env (f + 1) (kw "number" :: kw "of" :: kw "menuItems" :: kw "of" :: kw "menu" :: X) = some (.the .menu 2 [e], r3) := by
+  have c1 : chunkOfPlural ['m','e','n','u','I','t','e','m','s'] = none := by decide
+  have c2 : (Tok.id ['m','e','n','u','I','t','e','m','s']).kw "menuitems" = true := by decide
+  have m1 : (Tok.id ['m','e','n','u']).kw "menu" = true := by decide
+  simp only [kw]
+  simp only [pThe, kwNumber, if_true]
+  simp [kwNumber, kwOf, c1, c2, m1, h]
+
+theorem pThe_castMembers (f : Nat) (r : List Tok) :
+    pThe env (f + 1) (kw "number" :: kw "of" :: kw "castMembers" :: r) = some (.the .count 2 [], r) := by
+  have c1 : chunkOfPlural ['c','a','s','t','M','e','m','b','e','r','s'] = none := by decide
+  have c2 : (Tok.id ['c','a','s','t','M','e','m','b','e','r','s']).kw "menuitems" = false := by decide
+  have c3 : (Tok.id ['c','a','s','t','M','e','m','b','e','r','s']).kw "castmembers" = true := by decide
+  simp only [kw]
+  simp only [pThe, kwNumber, if_true]
+  simp [kwNumber, kwOf, c1, c2, c3]
+
+theorem pThe_menus (f : Nat) (r : List Tok) :
+    pThe env (f + 1) (kw "number" :: kw "of" :: kw "menus" :: r) = some (.the .count 3 [], r) := by
+  have c1 : chunkOfPlural ['m','e','n','u','s'] = none := by decide
+  have c2 : (Tok.id ['m','e','n','u','s']).kw "menuitems" = false := by decide
+  have c3 : (Tok.id ['m','e','n','u','s']).kw "castmembers" = false := by decide
+  have c4 : (Tok.id ['m','e','n','u','s']).kw "menus" = true := by decide
+  simp only [kw]
+  simp only [pThe, kwNumber, if_true]
+  simp [kwNumber, kwOf, c1, c2, c3, c4]
+
+theorem pThe_last (f : Nat) (c : ChunkKind) (X r3 : List Tok) (e : Expr) (h : pE5 env f X = some (e, r3)) :
+    pThe env (f + 1) (kw "last" :: kw c.tag :: kw "of" :: X) = some (.the .special (11 + c.rank) [e], r3) := by
+  simp only [kw]
+  simp only [pThe, kwLastNumber, kwLast, if_true, if_false, Bool.false_eq_true]
+  simp [kwLastNumber, kwLast, kwOf, chunkTag_facts c, h]
+
+/-- the date / time forms: the table words read back as the entry's index -/
+def dateOk (k : Nat) : Bool :=
+  match tblDate.find? fun x => x.1 == k with
+  | some (_, st, un) => !(kw st).kw "number" && !(kw st).kw "last" && dateIdx st.toList un.toList == some k
+  | none => false
+
+theorem pThe_date (f : Nat) (st un : String) (k : Nat) (r : List Tok)
+    (h1 : (kw st).kw "number" = false) (h2 : (kw st).kw "last" = false) (h3 : dateIdx st.toList un.toList = some k) :
+    pThe env (f + 1) (kw st :: kw un :: r) = some (.the .special k [], r) := by
+  simp only [kw] at h1 h2 ⊢
+  simp only [pThe, h1, h2, if_false, Bool.false_eq_true]
+  simp [h1, h2, h3]
+
+theorem dateOk_all : ∀ x ∈ tblDate, dateOk x.1 = true := by decide +kernel
+
+theorem plainId_me : PlainId ['m','e'] := by unfold PlainId; decide
+theorem resolve_me (hm : env.isMethod = true) : env.resolve ['m','e'] = .me := by
+  have h1 : namedConstantOf ['m','e'] = none := by decide +kernel
+  have h2 : lowerName ['m','e'] = ['m','e'] := by decide
+  simp [Env.resolve, h1, h2, hm]
+
+theorem pE5_me (f : Nat) (rest : List Tok) (hm : env.isMethod = true) (hn : NoLp rest) :
+    pE5 env (f + 2) (kw "me" :: rest) = some (.me, rest) := by
+  have := pE5_id env f ['m','e'] rest plainId_me hn
+  rw [resolve_me env hm] at this
+  simpa [kw] using this
+
+theorem pE5_mcall0 (f : Nat) (s m : Name) (r : List Tok) (hp : PlainId s) (hv : env.isVar s = true) :
+    pE5 env (f + 2) (.id s :: .p .lp :: .id m :: .p .rp :: r) = some (.mcall (env.resolveVar s) m [], r) := by
+  obtain ⟨h1, h2, h3, h4, h5⟩ := hp
+  simp [pE5, pSimple, h1, h2, h3, h4, h5, hv]
+
+theorem pE5_mcall (f : Nat) (s m : Name) (X r3 : List Tok) (as : List Expr) (hp : PlainId s) (hv : env.isVar s = true)
+    (h : pArgs env f X = some (as, .p .rp :: r3)) :
+    pE5 env (f + 2) (.id s :: .p .lp :: .id m :: .p .comma :: X) = some (.mcall (env.resolveVar s) m as, r3) := by
+  obtain ⟨h1, h2, h3, h4, h5⟩ := hp
+  simp [pE5, pSimple, h1, h2, h3, h4, h5, hv, h]
+
+theorem pE5_plist0 (f : Nat) (r : List Tok) : pE5 env (f + 2) (.p .lb :: .p .colon :: .p .rb :: r) = some (.plist [], r) := by
+  simp [pE5, pSimple, kw_p]
+
+theorem pE5_plist (f : Nat) (t : Tok) (ts r1 r2 r3 : List Tok) (k v : Expr) (kvs : List Expr)
+    (ht1 : t ≠ .p .rb) (ht2 : t ≠ .p .colon)
+    (h1 : pLevel env f 1 (t :: ts) = some (k, .p .colon :: r1))
+    (h2 : pLevel env f 1 r1 = some (v, r2))
+    (h3 : pPairs env f r2 = some (kvs, .p .rb :: r3)) :
+    pE5 env (f + 2) (.p .lb :: t :: ts) = some (.plist (k :: v :: kvs), r3) := by
+  simp only [pE5, kw_p]
+  simp only [pSimple]
+  simp
+  split
+  · rename_i heq; injection heq with h _; exact absurd h ht1
+  · rename_i heq; injection heq with h _; exact absurd h ht2
+  · simp only [h1]
+    simp [h2, h3]
+
+
+def plainThe (n : Name) : Bool := !(Tok.id n).kw "number" && !(Tok.id n).kw "last" && notDateStyle n
+def plainThe' (n : Name) : Bool := !(Tok.id n).kw "last" && notDateStyle n
+
+theorem plainThe_spec (n : Name) (h : plainThe n = true) : PlainThe n := by
+  simp [plainThe] at h; exact ⟨h.1.1, h.1.2, h.2⟩
+theorem plainThe'_spec (n : Name) (h : plainThe' n = true) : PlainThe' n := by
+  simp [plainThe'] at h; exact ⟨h.1, h.2⟩
+
+/-- entry `k` of a property table: its name reads back as `k`, takes an object, and is not a word with a special form -/
+def propOk (t : List (Nat × String)) (k : Nat) : Bool :=
+  match tblLookupIdx t k with
+  | some n => plainThe n && !isObjectless n && tblLookupName t n == some k
+  | none => false
+/-- the same for the cast / field table, where `number` is a property -/
+def propOk' (t : List (Nat × String)) (k : Nat) : Bool :=
+  match tblLookupIdx t k with
+  | some n => plainThe' n && !isObjectless n && tblLookupName t n == some k
+  | none => false
+def videoOk (k : Nat) : Bool :=
+  match tblLookupIdx tblVideo k with
+  | some n => plainThe n && !isObjectless n && tblLookupName tblVideo n == some k && (tblLookupName tblCast n).isNone
+  | none => false
+def specialOk (k : Nat) : Bool :=
+  match tblLookupIdx tblSpecial k with
+  | some n => plainThe n && isObjectless n && tblLookupName tblSpecial n == some k
+  | none => false
+def sysOk (k : Nat) : Bool :=
+  match tblLookupIdx tblSys k with
+  | some n => plainThe n && isObjectless n && (tblLookupName tblSpecial n).isNone && tblLookupName tblSys n == some k
+  | none => false
+
+/-- which `the` forms (table, index, number of arguments) the round-trip theorem covers; all are decidable table facts -/
+def TheOk : Tbl → Nat → Nat → Bool
+  | .special, k, 0 => if k < 6 then specialOk k else dateOk k
+  | .special, k, 1 => decide (11 ≤ k) && (ChunkKind.ofRank (k - 11)).isSome
+  | .numChunks, k, 1 => (ChunkKind.ofRank k).isSome
+  | .menu, k, 1 => k == 1 || k == 2
+  | .menuItem, k, 2 => propOk tblMenuItem k
+  | .sound, k, 1 => propOk tblSound k
+  | .sprite, k, 1 => propOk tblSprite k
+  | .cast, k, 1 => propOk' tblCast k
+  | .video, k, 1 => videoOk k
+  | .field, k, 1 => propOk' tblCast k
+  | .sys, k, 0 => sysOk k
+  | .count, k, 0 => k == 1 || k == 2 || k == 3
+  | _, _, _ => false
+
+theorem propOk_spec (t : List (Nat × String)) (k : Nat) (h : propOk t k = true) :
+    PlainThe (nameOrUnknown t k) ∧ isObjectless (nameOrUnknown t k) = false ∧ tblLookupName t (nameOrUnknown t k) = some k := by
+  unfold propOk at h
+  cases hi : tblLookupIdx t k with
+  | none => simp [hi] at h
+  | some n =>
+    simp [hi] at h
+    simp only [nameOrUnknown, hi, Option.getD_some]
+    exact ⟨plainThe_spec n h.1.1, h.1.2, h.2⟩
+
+theorem propOk'_spec (t : List (Nat × String)) (k : Nat) (h : propOk' t k = true) :
+    PlainThe' (nameOrUnknown t k) ∧ isObjectless (nameOrUnknown t k) = false ∧ tblLookupName t (nameOrUnknown t k) = some k := by
+  unfold propOk' at h
+  cases hi : tblLookupIdx t k with
+  | none => simp [hi] at h
+  | some n =>
+    simp [hi] at h
+    simp only [nameOrUnknown, hi, Option.getD_some]
+    exact ⟨plainThe'_spec n h.1.1, h.1.2, h.2⟩
+
+theorem videoOk_spec (k : Nat) (h : videoOk k = true) :
+    PlainThe (nameOrUnknown tblVideo k) ∧ isObjectless (nameOrUnknown tblVideo k) = false
+      ∧ tblLookupName tblVideo (nameOrUnknown tblVideo k) = some k ∧ tblLookupName tblCast (nameOrUnknown tblVideo k) = none := by
+  unfold videoOk at h
+  cases hi : tblLookupIdx tblVideo k with
+  | none => simp [hi] at h
+  | some n =>
+    simp [hi] at h
+    simp only [nameOrUnknown, hi, Option.getD_some]
+    exact ⟨plainThe_spec n h.1.1.1, h.1.1.2, h.1.2, h.2⟩
+
+theorem specialOk_spec (k : Nat) (h : specialOk k = true) :
+    PlainThe (nameOrUnknown tblSpecial k) ∧ isObjectless (nameOrUnknown tblSpecial k) = true
+      ∧ theSimple (nameOrUnknown tblSpecial k) = .the .special k [] := by
+  unfold specialOk at h
+  cases hi : tblLookupIdx tblSpecial k with
+  | none => simp [hi] at h
+  | some n =>
+    simp [hi] at h
+    simp only [nameOrUnknown, hi, Option.getD_some]
+    exact ⟨plainThe_spec n h.1.1, h.1.2, by simp [theSimple, h.2]⟩
+
+theorem sysOk_spec (k : Nat) (h : sysOk k = true) :
+    PlainThe (nameOrUnknown tblSys k) ∧ isObjectless (nameOrUnknown tblSys k) = true
+      ∧ theSimple (nameOrUnknown tblSys k) = .the .sys k [] := by
+  unfold sysOk at h
+  cases hi : tblLookupIdx tblSys k with
+  | none => simp [hi] at h
+  | some n =>
+    simp [hi] at h
+    simp only [nameOrUnknown, hi, Option.getD_some]
+    exact ⟨plainThe_spec n h.1.1.1, h.1.1.2, by simp [theSimple, h.1.2, h.2]⟩
+
+theorem perFrameHook_facts : PlainThe "perFrameHook".toList ∧ isObjectless "perFrameHook".toList = true
+    ∧ theSimple "perFrameHook".toList = .the .count 1 [] := by
+  refine ⟨⟨by decide, by decide, by decide⟩, by decide +kernel, ?_⟩
+  have h1 : tblLookupName tblSpecial "perFrameHook".toList = none := by decide +kernel
+  have h2 : tblLookupName tblSys "perFrameHook".toList = none := by decide +kernel
+  have h3 : lowerName "perFrameHook".toList = "perframehook".toList := by decide
+  simp only [theSimple, h1, h2, h3, if_true]
+
+/-- `the` forms without argument -/
+theorem rp_the0 (t : Tbl) (k : Nat) (hok : TheOk t k 0 = true) (rest : List Tok) (f : Nat) :
+    pE5 env (f + 3) (prThe t k [] ++ rest) = some (.the t k [], rest) := by
+  cases t <;> simp only [TheOk, Bool.false_eq_true] at hok
+  · -- special
+    by_cases hk : k < 6
+    · simp only [hk, if_true] at hok
+      obtain ⟨h1, h2, h3⟩ := specialOk_spec k hok
+      have := pE5_the env (f + 1) _ _ rest (pThe_simple env f _ rest h1 h2)
+      rw [h3] at this
+      simpa [prThe, hk] using this
+    · simp only [hk, if_false] at hok
+      unfold dateOk at hok
+      cases hf : tblDate.find? (fun x => x.1 == k) with
+      | none => simp [hf] at hok
+      | some x =>
+        obtain ⟨i, st, un⟩ := x
+        simp [hf] at hok
+        have := pE5_the env (f + 1) _ _ rest (pThe_date env f st un k rest hok.1.1 hok.1.2 hok.2)
+        simpa [prThe, hk, hf] using this
+  · -- sys
+    obtain ⟨h1, h2, h3⟩ := sysOk_spec k hok
+    have := pE5_the env (f + 1) _ _ rest (pThe_simple env f _ rest h1 h2)
+    rw [h3] at this
+    simpa [prThe] using this
+  · -- count
+    simp at hok
+    rcases hok with (hk | hk) | hk <;> subst hk
+    · obtain ⟨h1, h2, h3⟩ := perFrameHook_facts
+      have := pE5_the env (f + 1) _ _ rest (pThe_simple env f _ rest h1 h2)
+      rw [h3] at this
+      simpa [prThe, kw] using this
+    · have := pE5_the env (f + 1) _ _ rest (pThe_castMembers env f rest)
+      simpa [prThe] using this
+    · have := pE5_the env (f + 1) _ _ rest (pThe_menus env f rest)
+      simpa [prThe] using this
+
+/-- `the` forms with one argument -/
+theorem rp_the1 (t : Tbl) (k : Nat) (a : Expr) (hok : TheOk t k 1 = true) (rest : List Tok) (f : Nat)
+    (ih : pE5 env f (prE a ++ rest) = some (a, rest)) :
+    pE5 env (f + 3) (prThe t k [a] ++ rest) = some (.the t k [a], rest) := by
+  cases t <;> simp only [TheOk, Bool.false_eq_true] at hok
+  · -- special: the last chunk
+    simp at hok
+    obtain ⟨hk, hr⟩ := hok
+    cases hc : ChunkKind.ofRank (k - 11) with
+    | none => simp [hc] at hr
+    | some c =>
+      have hrank := ofRank_rank _ _ hc
+      have := pE5_the env (f + 1) _ _ rest (pThe_last env f c _ rest a ih)
+      have e : 11 + c.rank = k := by omega
+      rw [e] at this
+      simpa [prThe, hc] using this
+  · -- numChunks
+    cases hc : ChunkKind.ofRank k with
+    | none => simp [hc] at hok
+    | some c =>
+      have hrank := ofRank_rank _ _ hc
+      have := pE5_the env (f + 1) _ _ rest (pThe_numChunks env f c _ rest a ih)
+      rw [hrank] at this
+      simpa [prThe, hc] using this
+  · -- menu
+    simp at hok
+    rcases hok with hk | hk <;> subst hk
+    · have := pE5_the env (f + 1) _ _ rest (pThe_menuName env f _ rest a ih)
+      simpa [prThe] using this
+    · have := pE5_the env (f + 1) _ _ rest (pThe_menuItems env f _ rest a ih)
+      simpa [prThe] using this
+  · -- sound
+    obtain ⟨h1, h2, h3⟩ := propOk_spec _ k hok
+    have := pE5_the env (f + 1) _ _ rest (pThe_sound env f _ k _ rest a h1 h2 h3 ih)
+    simpa [prThe] using this
+  · -- sprite
+    obtain ⟨h1, h2, h3⟩ := propOk_spec _ k hok
+    have := pE5_the env (f + 1) _ _ rest (pThe_sprite env f _ k _ rest a h1 h2 h3 ih)
+    simpa [prThe] using this
+  · -- cast
+    obtain ⟨h1, h2, h3⟩ := propOk'_spec _ k hok
+    have := pE5_the env (f + 1) _ _ rest (pThe_cast env f _ k _ rest a h1 h2 h3 ih)
+    simpa [prThe] using this
+  · -- field
+    obtain ⟨h1, h2, h3⟩ := propOk'_spec _ k hok
+    have := pE5_the env (f + 1) _ _ rest (pThe_field env f _ k _ rest a h1 h2 h3 ih)
+    simpa [prThe] using this
+  · -- video
+    obtain ⟨h1, h2, h3, h4⟩ := videoOk_spec k hok
+    have := pE5_the env (f + 1) _ _ rest (pThe_video env f _ k _ rest a h1 h2 h4 h3 ih)
+    simpa [prThe] using this
+
+/-- `the P of menuItem i of menu m` -/
+theorem rp_the2 (t : Tbl) (k : Nat) (i m : Expr) (hok : TheOk t k 2 = true) (rest : List Tok) (f : Nat)
+    (ih1 : pE5 env f (prE i ++ kw "of" :: kw "menu" :: (prE m ++ rest)) = some (i, kw "of" :: kw "menu" :: (prE m ++ rest)))
+    (ih2 : pE5 env f (prE m ++ rest) = some (m, rest)) :
+    pE5 env (f + 3) (prThe t k [i, m] ++ rest) = some (.the t k [i, m], rest) := by
+  cases t <;> simp only [TheOk, Bool.false_eq_true] at hok
+  obtain ⟨h1, h2, h3⟩ := propOk_spec _ k hok
+  have := pE5_the env (f + 1) _ _ rest (pThe_menuItem env f _ k _ _ rest i m h1 h2 h3 ih1 ih2)
+  simpa [prThe] using this
+
+theorem theOk_arity (t : Tbl) (k n : Nat) (h : TheOk t k (n + 3) = true) : False := by
+  cases t <;> simp [TheOk] at h
+
+
+/-! ### the fragment -/
+
+/-- receiver of a method call `obj(mName, args)`: a variable (or `me`) the environment knows -/
+def RecvOk (env : Env) (o : Expr) : Prop :=
+  ∃ s, prE o = [.id s] ∧ PlainId s ∧ env.isVar s = true ∧ env.resolveVar s = o
+
+def headNotObj : List Tok → Bool
+  | [] => false
+  | t :: _ => !objKw t
+
+mutual
+/-- the fragment of the round-trip theorem: every expression form of the syntax tree, with the side conditions under which the
+    concrete syntax is unambiguous (identifiers that are not grammar words, variables classified by `env` as the tree says,
+    table indices that exist, property lists with an even number of entries, method-call receivers that are variables) -/
+def Frag (env : Env) : Expr → Prop
+  | .int _ => True
+  | .str _ => True
+  | .float _ _ => True
+  | .sym _ => True
+  | .var k n => PlainId n ∧ resolvesTo env n k = true
+  | .me => env.isMethod = true
+  | .un _ a => Frag env a
+  | .bin _ a b => Frag env a ∧ Frag env b
+  | .field a => Frag env a
+  | .call f as => PlainId f ∧ env.isVar f = false ∧ FragL env as
+  | .mcall o _ as => RecvOk env o ∧ FragL env as
+  | .list as => FragL env as
+  | .plist as => as.length % 2 = 0 ∧ FragL env as
+  | .the t k as => TheOk t k as.length = true ∧ FragL env as
+  | .key n => PlainThe n ∧ isObjectless n = true ∧ theSimple n = .key n
+  | .movie n => PlainThe n ∧ isObjectless n = true ∧ theSimple n = .movie n
+  | .oprop n o => PlainThe n ∧ isObjectless n = false ∧ headNotObj (prE o) = true ∧ Frag env o
+  | .chunk _ a b d => Frag env a ∧ Frag env b ∧ Frag env d
+def FragL (env : Env) : List Expr → Prop
+  | [] => True
+  | e :: es => Frag env e ∧ FragL env es
+end
+
+mutual
+/-- fuel that is certainly enough to read the printed expression back -/
+def fuelOf : Expr → Nat
+  | .bin _ a b => fuelOf a + fuelOf b + 30
+  | .un _ a => fuelOf a + 2
+  | .field a => fuelOf a + 4
+  | .call _ as => fuelOfL as + 30
+  | .mcall _ _ as => fuelOfL as + 30
+  | .list as => fuelOfL as + 30
+  | .plist as => fuelOfL as + 30
+  | .the _ _ as => fuelOfL as + 30
+  | .oprop _ o => fuelOf o + 4
+  | .chunk _ a b d => fuelOf a + fuelOf b + fuelOf d + 30
+  | _ => 4
+def fuelOfL : List Expr → Nat
+  | [] => 0
+  | e :: es => fuelOf e + fuelOfL es + 30
+end
+
+theorem prArgs_cons (e : Expr) (es : List Expr) : prArgs (e :: es) = prE e ++ prTail es := by
+  induction es generalizing e with
+  | nil => simp [prArgs, prTail]
+  | cons e' es ih => simp [prArgs, prTail, ih e']
+
+/-- `, k1: v1, k2: v2` -/
+def prPairTail : List Expr → List Tok
+  | k :: v :: r => .p .comma :: prE k ++ .p .colon :: prE v ++ prPairTail r
+  | _ => []
+
+theorem prPairs_cons : ∀ (r : List Expr) (k v : Expr), r.length % 2 = 0 →
+    prPairs (k :: v :: r) = prE k ++ .p .colon :: prE v ++ prPairTail r
+  | [], k, v, _ => by simp [prPairs, prPairTail]
+  | [x], _, _, h => by simp at h
+  | k' :: v' :: r', k, v, h => by
+    have h' : r'.length % 2 = 0 := by simp at h; omega
+    simp [prPairs, prPairTail, prPairs_cons r' k' v' h']
+
+theorem prThe_head (t : Tbl) (k : Nat) (as : List Expr) : ∃ X, prThe t k as = kw "the" :: X := by
+  unfold prThe
+  split <;> (try split) <;> (try split) <;> exact ⟨_, rfl⟩
+
+/-- the first token of a printed expression is not a closing parenthesis -/
+def HeadNotRp : List Tok → Prop
+  | [] => False
+  | t :: _ => t ≠ .p .rp ∧ t ≠ .p .rb ∧ t ≠ .p .colon
+
+theorem prE_head (e : Expr) (h : Frag env e) : HeadNotRp (prE e) := by
+  cases e with
+  | int n => simp [prE, HeadNotRp]
+  | str s =>
+    by_cases h0 : s = []
+    · simp [prE, strToks, h0, HeadNotRp]
+    · cases hc : nameOfConstant s <;> simp [prE, strToks, h0, hc, HeadNotRp]
+  | float d s => simp [prE, HeadNotRp]
+  | sym n => simp [prE, HeadNotRp]
+  | var k n => simp [prE, HeadNotRp]
+  | un op a => cases op <;> simp [prE, HeadNotRp, kw]
+  | bin op a b =>
+    cases hop : op.isInfix <;> simp [prE, hop, HeadNotRp, kw]
+  | field a => simp [prE, HeadNotRp, kw]
+  | call f as => simp [prE, HeadNotRp]
+  | list as => simp [prE, HeadNotRp]
+  | me => simp [prE, HeadNotRp, kw]
+  | mcall o m as =>
+    obtain ⟨⟨s, hs, _⟩, _⟩ : RecvOk env o ∧ FragL env as := h
+    simp [prE, hs, HeadNotRp]
+  | plist as => cases as <;> simp [prE, HeadNotRp]
+  | the t k as =>
+    obtain ⟨X, hX⟩ := prThe_head t k as
+    simp [prE, hX, HeadNotRp, kw]
+  | key n => simp [prE, HeadNotRp, kw]
+  | movie n => simp [prE, HeadNotRp, kw]
+  | oprop n o => simp [prE, HeadNotRp, kw]
+  | chunk c a b d =>
+    cases b with
+    | int n => cases n <;> simp [prE, HeadNotRp, kw]
+    | _ => simp [prE, HeadNotRp, kw]
+
 mutual
 /-- the level-5 reader inverts the printer on the fragment -/
 theorem rp_e5 : ∀ (e : Expr), Frag env e → ∀ (rest : List Tok), NoLp rest → ∀ F, fuelOf e ≤ F →
@@ -513,13 +1039,109 @@ theorem rp_e5 : ∀ (e : Expr), Frag env e → ∀ (rest : List Tok), NoLp rest 
         rw [hpe] at hhead hE
         have := pE5_list env f t (ts ++ (prTail es ++ .p .rb :: rest)) _ rest e es hhead.2.1 hhead.2.2 (by simpa using hE) hnc hM
         simpa [prE, prArgs_cons, hpe] using this
-  | .me, h, _, _, _, _ => absurd h (by simp [Frag])
-  | .mcall _ _ _, h, _, _, _, _ => absurd h (by simp [Frag])
-  | .plist _, h, _, _, _, _ => absurd h (by simp [Frag])
-  | .the _ _ _, h, _, _, _, _ => absurd h (by simp [Frag])
-  | .key _, h, _, _, _, _ => absurd h (by simp [Frag])
-  | .movie _, h, _, _, _, _ => absurd h (by simp [Frag])
-  | .oprop _ _, h, _, _, _, _ => absurd h (by simp [Frag])
+  | .me, h, rest, hn, F, hF => by
+    obtain ⟨f, rfl⟩ : ∃ f, F = f + 2 := ⟨F - 2, by simp [fuelOf] at hF; omega⟩
+    have hm : env.isMethod = true := h
+    simpa [prE] using pE5_me env f rest hm hn
+  | .key n, h, rest, _, F, hF => by
+    obtain ⟨h1, h2, h3⟩ : PlainThe n ∧ isObjectless n = true ∧ theSimple n = .key n := h
+    obtain ⟨f, rfl⟩ : ∃ f, F = f + 3 := ⟨F - 3, by simp [fuelOf] at hF; omega⟩
+    have := pE5_the env (f + 1) _ _ rest (pThe_simple env f n rest h1 h2)
+    rw [h3] at this
+    simpa [prE] using this
+  | .movie n, h, rest, _, F, hF => by
+    obtain ⟨h1, h2, h3⟩ : PlainThe n ∧ isObjectless n = true ∧ theSimple n = .movie n := h
+    obtain ⟨f, rfl⟩ : ∃ f, F = f + 3 := ⟨F - 3, by simp [fuelOf] at hF; omega⟩
+    have := pE5_the env (f + 1) _ _ rest (pThe_simple env f n rest h1 h2)
+    rw [h3] at this
+    simpa [prE] using this
+  | .oprop n o, h, rest, hn, F, hF => by
+    obtain ⟨h1, h2, h3, ho⟩ : PlainThe n ∧ isObjectless n = false ∧ headNotObj (prE o) = true ∧ Frag env o := h
+    obtain ⟨f, rfl⟩ : ∃ f, F = f + 3 := ⟨F - 3, by simp [fuelOf] at hF; omega⟩
+    have ih := rp_e5 o ho rest hn f (by simp [fuelOf] at hF; omega)
+    cases hpe : prE o with
+    | nil => simp [hpe, headNotObj] at h3
+    | cons t X =>
+      rw [hpe] at ih h3
+      have := pE5_the env (f + 1) _ _ rest
+        (pThe_oprop env f n t (X ++ rest) rest o h1 h2 (by simpa [headNotObj] using h3) (by simpa using ih))
+      simpa [prE, hpe] using this
+  | .the t k [], h, rest, _, F, hF => by
+    obtain ⟨hok, _⟩ : TheOk t k 0 = true ∧ True := h
+    obtain ⟨f, rfl⟩ : ∃ f, F = f + 3 := ⟨F - 3, by simp [fuelOf] at hF; omega⟩
+    simpa [prE] using rp_the0 env t k hok rest f
+  | .the t k [a], h, rest, hn, F, hF => by
+    obtain ⟨hok, ha, _⟩ : TheOk t k 1 = true ∧ Frag env a ∧ True := h
+    obtain ⟨f, rfl⟩ : ∃ f, F = f + 3 := ⟨F - 3, by simp [fuelOf] at hF; omega⟩
+    simpa [prE] using rp_the1 env t k a hok rest f (rp_e5 a ha rest hn f (by simp [fuelOf, fuelOfL] at hF; omega))
+  | .the t k [i, m], h, rest, hn, F, hF => by
+    obtain ⟨hok, hi, hm, _⟩ : TheOk t k 2 = true ∧ Frag env i ∧ Frag env m ∧ True := h
+    obtain ⟨f, rfl⟩ : ∃ f, F = f + 3 := ⟨F - 3, by simp [fuelOf] at hF; omega⟩
+    simpa [prE] using rp_the2 env t k i m hok rest f
+      (rp_e5 i hi _ (by simp [kw, NoLp]) f (by simp [fuelOf, fuelOfL] at hF; omega))
+      (rp_e5 m hm rest hn f (by simp [fuelOf, fuelOfL] at hF; omega))
+  | .the t k (_ :: _ :: _ :: ds), h, _, _, _, _ => by
+    obtain ⟨hok, _⟩ : TheOk t k (ds.length + 3) = true ∧ _ := h
+    exact absurd hok (fun hh => theOk_arity t k ds.length hh)
+  | .mcall o m as, h, rest, _, F, hF => by
+    obtain ⟨⟨s, hs, hp, hv, hr⟩, has⟩ : RecvOk env o ∧ FragL env as := h
+    obtain ⟨f, rfl⟩ : ∃ f, F = f + 2 := ⟨F - 2, by simp [fuelOf] at hF; omega⟩
+    cases as with
+    | nil =>
+      have := pE5_mcall0 env f s m rest hp hv
+      rw [hr] at this
+      simpa [prE, hs, prTail] using this
+    | cons e es =>
+      obtain ⟨he, hes⟩ : Frag env e ∧ FragL env es := has
+      obtain ⟨f', rfl⟩ : ∃ f', f = f' + 1 := ⟨f - 1, by simp [fuelOf, fuelOfL] at hF; omega⟩
+      have hE : pLevel env f' 1 (prE e ++ (prTail es ++ .p .rp :: rest)) = some (e, prTail es ++ .p .rp :: rest) := by
+        cases es with
+        | nil =>
+          exact level_of_e5 env e _ (fuelOf e) (fun F' hF' => rp_e5 e he _ (nolp_closer _ _ (Or.inl rfl)) F' hF') 1 (by omega) (by omega)
+            (follow_closer _ _ _ (Or.inl rfl)) f' (by simp [fuelOf, fuelOfL] at hF; omega)
+        | cons e2 es2 =>
+          exact level_of_e5 env e _ (fuelOf e) (fun F' hF' => rp_e5 e he _ (nolp_closer _ _ (Or.inr (Or.inl rfl))) F' hF') 1 (by omega) (by omega)
+            (follow_closer _ _ _ (Or.inr (Or.inl rfl))) f' (by simp [fuelOf, fuelOfL] at hF; omega)
+      have hM := rp_more es hes (.p .rp) (Or.inl rfl) rest f' (by simp [fuelOf, fuelOfL] at hF; omega)
+      have hArgs : pArgs env (f' + 1) (prE e ++ (prTail es ++ .p .rp :: rest)) = some (e :: es, .p .rp :: rest) := by
+        simp only [pArgs, hE, hM]
+      have := pE5_mcall env (f' + 1) s m _ rest (e :: es) hp hv hArgs
+      rw [hr] at this
+      simpa [prE, hs, prTail] using this
+  | .plist [], _, rest, _, F, hF => by
+    obtain ⟨f, rfl⟩ : ∃ f, F = f + 2 := ⟨F - 2, by simp [fuelOf] at hF; omega⟩
+    simpa [prE] using pE5_plist0 env f rest
+  | .plist [_], h, _, _, _, _ => by
+    obtain ⟨hev, _⟩ : (1 : Nat) % 2 = 0 ∧ _ := h
+    simp at hev
+  | .plist (k :: v :: r), h, rest, _, F, hF => by
+    obtain ⟨hev, hk, hv, hr⟩ : (r.length + 2) % 2 = 0 ∧ Frag env k ∧ Frag env v ∧ FragL env r := h
+    have hev' : r.length % 2 = 0 := by omega
+    obtain ⟨f, rfl⟩ : ∃ f, F = f + 2 := ⟨F - 2, by simp [fuelOf] at hF; omega⟩
+    have hhead := prE_head env k hk
+    have hK : pLevel env f 1 (prE k ++ .p .colon :: (prE v ++ (prPairTail r ++ .p .rb :: rest)))
+        = some (k, .p .colon :: (prE v ++ (prPairTail r ++ .p .rb :: rest))) :=
+      level_of_e5 env k _ (fuelOf k) (fun F' hF' => rp_e5 k hk _ (nolp_closer _ _ (Or.inr (Or.inr (Or.inr (Or.inr rfl))))) F' hF') 1 (by omega) (by omega)
+        (follow_closer _ _ _ (Or.inr (Or.inr (Or.inr (Or.inr rfl))))) f (by simp [fuelOf, fuelOfL] at hF; omega)
+    have hV : pLevel env f 1 (prE v ++ (prPairTail r ++ .p .rb :: rest)) = some (v, prPairTail r ++ .p .rb :: rest) := by
+      match r, hr with
+      | [], _ =>
+        exact level_of_e5 env v _ (fuelOf v) (fun F' hF' => rp_e5 v hv _ (nolp_closer _ _ (Or.inr (Or.inr (Or.inl rfl)))) F' hF') 1 (by omega) (by omega)
+          (follow_closer _ _ _ (Or.inr (Or.inr (Or.inl rfl)))) f (by simp [fuelOf, fuelOfL] at hF; omega)
+      | [x], _ =>
+        exact level_of_e5 env v _ (fuelOf v) (fun F' hF' => rp_e5 v hv _ (nolp_closer _ _ (Or.inr (Or.inr (Or.inl rfl)))) F' hF') 1 (by omega) (by omega)
+          (follow_closer _ _ _ (Or.inr (Or.inr (Or.inl rfl)))) f (by simp [fuelOf, fuelOfL] at hF; omega)
+      | k2 :: v2 :: r2, _ =>
+        exact level_of_e5 env v _ (fuelOf v) (fun F' hF' => rp_e5 v hv _ (nolp_closer _ _ (Or.inr (Or.inl rfl))) F' hF') 1 (by omega) (by omega)
+          (follow_closer _ _ _ (Or.inr (Or.inl rfl))) f (by simp [fuelOf, fuelOfL] at hF; omega)
+    have hP := rp_pairs r hr hev' rest f (by simp [fuelOf, fuelOfL] at hF; omega)
+    cases hpe : prE k with
+    | nil => rw [hpe] at hhead; exact absurd hhead (by simp [HeadNotRp])
+    | cons t ts =>
+      rw [hpe] at hhead hK
+      have := pE5_plist env f t (ts ++ .p .colon :: (prE v ++ (prPairTail r ++ .p .rb :: rest))) _ _ rest k v r hhead.2.1 hhead.2.2
+        (by simpa using hK) hV hP
+      simpa [prE, prPairs_cons r k v hev', hpe] using this
   | .chunk c a b d, h, rest, hn, F, hF => by
     obtain ⟨ha, hb, hd⟩ : Frag env a ∧ Frag env b ∧ Frag env d := h
     obtain ⟨f, rfl⟩ : ∃ f, F = f + 3 := ⟨F - 3, by simp [fuelOf] at hF; omega⟩
@@ -567,6 +1189,161 @@ theorem rp_more : ∀ (es : List Expr), FragL env es → ∀ (c : Tok), (c = .p 
           (follow_closer _ _ _ (Or.inr (Or.inl rfl))) f (by simp [fuelOfL] at hF; omega)
     have hM := rp_more es hes c hc rest f (by simp [fuelOfL] at hF; omega)
     simp only [prTail, List.cons_append, List.append_assoc, pMore, hE, hM]
+/-- `, k: v, k: v` up to the closing bracket -/
+theorem rp_pairs : ∀ (es : List Expr), FragL env es → es.length % 2 = 0 → ∀ (rest : List Tok) (F : Nat), fuelOfL es + 1 ≤ F →
+    pPairs env F (prPairTail es ++ .p .rb :: rest) = some (es, .p .rb :: rest)
+  | [], _, _, rest, F, hF => by
+    obtain ⟨f, rfl⟩ : ∃ f, F = f + 1 := ⟨F - 1, by omega⟩
+    simp [prPairTail, pPairs]
+  | [_], _, hev, _, _, _ => by simp at hev
+  | k :: v :: r, h, hev, rest, F, hF => by
+    obtain ⟨hk, hv, hr⟩ : Frag env k ∧ Frag env v ∧ FragL env r := h
+    have hev' : r.length % 2 = 0 := by simp at hev; omega
+    obtain ⟨f, rfl⟩ : ∃ f, F = f + 1 := ⟨F - 1, by omega⟩
+    have hK : pLevel env f 1 (prE k ++ .p .colon :: (prE v ++ (prPairTail r ++ .p .rb :: rest)))
+        = some (k, .p .colon :: (prE v ++ (prPairTail r ++ .p .rb :: rest))) :=
+      level_of_e5 env k _ (fuelOf k) (fun F' hF' => rp_e5 k hk _ (nolp_closer _ _ (Or.inr (Or.inr (Or.inr (Or.inr rfl))))) F' hF') 1 (by omega) (by omega)
+        (follow_closer _ _ _ (Or.inr (Or.inr (Or.inr (Or.inr rfl))))) f (by simp [fuelOfL] at hF; omega)
+    have hV : pLevel env f 1 (prE v ++ (prPairTail r ++ .p .rb :: rest)) = some (v, prPairTail r ++ .p .rb :: rest) := by
+      match r, hr with
+      | [], _ =>
+        exact level_of_e5 env v _ (fuelOf v) (fun F' hF' => rp_e5 v hv _ (nolp_closer _ _ (Or.inr (Or.inr (Or.inl rfl)))) F' hF') 1 (by omega) (by omega)
+          (follow_closer _ _ _ (Or.inr (Or.inr (Or.inl rfl)))) f (by simp [fuelOfL] at hF; omega)
+      | [x], _ =>
+        exact level_of_e5 env v _ (fuelOf v) (fun F' hF' => rp_e5 v hv _ (nolp_closer _ _ (Or.inr (Or.inr (Or.inl rfl)))) F' hF') 1 (by omega) (by omega)
+          (follow_closer _ _ _ (Or.inr (Or.inr (Or.inl rfl)))) f (by simp [fuelOfL] at hF; omega)
+      | k2 :: v2 :: r2, _ =>
+        exact level_of_e5 env v _ (fuelOf v) (fun F' hF' => rp_e5 v hv _ (nolp_closer _ _ (Or.inr (Or.inl rfl))) F' hF') 1 (by omega) (by omega)
+          (follow_closer _ _ _ (Or.inr (Or.inl rfl))) f (by simp [fuelOfL] at hF; omega)
+    have hP := rp_pairs r hr hev' rest f (by simp [fuelOfL] at hF; omega)
+    simp only [prPairTail, List.cons_append, List.append_assoc, pPairs, hK, hV, hP]
+end
+
+/-! ### fuel: 30 per printed token is enough -/
+
+theorem prTail_length_args : ∀ (es : List Expr), (prArgs es).length + 1 = (prTail es).length ∨ es = []
+  | [] => Or.inr rfl
+  | e :: es => by
+    left
+    rw [prArgs_cons]
+    simp [prTail]
+
+theorem prPairs_length : ∀ (es : List Expr), (prPairs es).length = (prArgs es).length
+  | [] => by simp [prPairs, prArgs]
+  | [k] => by simp [prPairs, prArgs]
+  | [k, v] => by simp [prPairs, prArgs]
+  | k :: v :: x :: r => by
+    have := prPairs_length (x :: r)
+    simp [prPairs, prArgs, this]
+
+theorem prThe_len1 (t : Tbl) (k : Nat) (a : Expr) (hok : TheOk t k 1 = true) : (prE a).length + 3 ≤ (prThe t k [a]).length := by
+  cases t <;> simp only [TheOk, Bool.false_eq_true] at hok <;> simp [prThe] <;> (try split) <;> simp <;> omega
+
+theorem prThe_len2 (t : Tbl) (k : Nat) (i m : Expr) (hok : TheOk t k 2 = true) : (prE i).length + (prE m).length + 6 ≤ (prThe t k [i, m]).length := by
+  cases t <;> simp only [TheOk, Bool.false_eq_true] at hok <;> simp [prThe] <;> omega
+
+theorem prThe_len0 (t : Tbl) (k : Nat) (as : List Expr) : 2 ≤ (prThe t k as).length := by
+  obtain ⟨X, hX⟩ := prThe_head t k as
+  have : X ≠ [] := by
+    intro h; subst h
+    unfold prThe at hX
+    split at hX <;> (try split at hX) <;> (try split at hX) <;> simp at hX
+  cases X with
+  | nil => exact absurd rfl this
+  | cons x X' => simp [hX]
+
+mutual
+theorem fuel_bound : ∀ (e : Expr), Frag env e → fuelOf e ≤ 30 * (prE e).length
+  | .int _, _ => by simp [fuelOf, prE]
+  | .str s, _ => by
+    by_cases h0 : s = []
+    · simp [fuelOf, prE, strToks, h0]
+    · cases hc : nameOfConstant s <;> simp [fuelOf, prE, strToks, h0, hc]
+  | .float _ _, _ => by simp [fuelOf, prE]
+  | .sym _, _ => by simp [fuelOf, prE]
+  | .var _ _, _ => by simp [fuelOf, prE]
+  | .me, _ => by simp [fuelOf, prE]
+  | .key _, _ => by simp [fuelOf, prE]
+  | .movie _, _ => by simp [fuelOf, prE]
+  | .un op a, h => by
+    have ha : Frag env a := h
+    have := fuel_bound a ha
+    cases op <;> simp [fuelOf, prE] <;> omega
+  | .field a, h => by
+    have ha : Frag env a := h
+    have := fuel_bound a ha
+    simp [fuelOf, prE]; omega
+  | .bin op a b, h => by
+    obtain ⟨ha, hb⟩ : Frag env a ∧ Frag env b := h
+    have := fuel_bound a ha
+    have := fuel_bound b hb
+    cases hop : op.isInfix <;> simp [fuelOf, prE, hop] <;> omega
+  | .call f as, h => by
+    obtain ⟨_, _, has⟩ : PlainId f ∧ env.isVar f = false ∧ FragL env as := h
+    have := fuelL_bound as has
+    rcases prTail_length_args as with h1 | h1
+    · simp [fuelOf, prE]; omega
+    · subst h1; simp [fuelOf, fuelOfL, prE]; omega
+  | .list as, h => by
+    have has : FragL env as := h
+    have := fuelL_bound as has
+    rcases prTail_length_args as with h1 | h1
+    · simp [fuelOf, prE]; omega
+    · subst h1; simp [fuelOf, fuelOfL, prE]; omega
+  | .plist as, h => by
+    obtain ⟨_, has⟩ : as.length % 2 = 0 ∧ FragL env as := h
+    have := fuelL_bound as has
+    rcases prTail_length_args as with h1 | h1
+    · cases as with
+      | nil => simp [fuelOf, fuelOfL, prE]
+      | cons x xs => simp [fuelOf, prE, prPairs_length]; omega
+    · subst h1; simp [fuelOf, fuelOfL, prE]
+  | .mcall o m as, h => by
+    obtain ⟨_, has⟩ : RecvOk env o ∧ FragL env as := h
+    have := fuelL_bound as has
+    simp [fuelOf, prE]; omega
+  | .oprop n o, h => by
+    obtain ⟨_, _, _, ho⟩ : PlainThe n ∧ isObjectless n = false ∧ headNotObj (prE o) = true ∧ Frag env o := h
+    have := fuel_bound o ho
+    simp [fuelOf, prE]; omega
+  | .chunk c a b d, h => by
+    obtain ⟨ha, hb, hd⟩ : Frag env a ∧ Frag env b ∧ Frag env d := h
+    have := fuel_bound a ha
+    have := fuel_bound b hb
+    have := fuel_bound d hd
+    have hcase : b = .int 0 ∨ prE (.chunk c a b d) = Tok.id c.tag.toList :: prE a ++ Tok.id "to".toList :: prE b ++ Tok.id "of".toList :: prE d := by
+      cases b with
+      | int n => cases n with
+        | zero => exact Or.inl rfl
+        | succ m => exact Or.inr (by simp [prE, kw])
+      | _ => exact Or.inr (by simp [prE, kw])
+    rcases hcase with hb0 | hpr
+    · subst hb0; simp [fuelOf, prE]; omega
+    · rw [hpr]; simp [fuelOf]; omega
+  | .the t k [], _ => by
+    have := prThe_len0 t k []
+    simp [fuelOf, fuelOfL, prE]; omega
+  | .the t k [a], h => by
+    obtain ⟨hok, ha, _⟩ : TheOk t k 1 = true ∧ Frag env a ∧ True := h
+    have := fuel_bound a ha
+    have := prThe_len1 t k a hok
+    simp [fuelOf, fuelOfL, prE]; omega
+  | .the t k [i, m], h => by
+    obtain ⟨hok, hi, hm, _⟩ : TheOk t k 2 = true ∧ Frag env i ∧ Frag env m ∧ True := h
+    have := fuel_bound i hi
+    have := fuel_bound m hm
+    have := prThe_len2 t k i m hok
+    simp [fuelOf, fuelOfL, prE]; omega
+  | .the t k (_ :: _ :: _ :: ds), h => by
+    obtain ⟨hok, _⟩ : TheOk t k (ds.length + 3) = true ∧ _ := h
+    exact absurd hok (fun hh => theOk_arity t k ds.length hh)
+theorem fuelL_bound : ∀ (es : List Expr), FragL env es → fuelOfL es ≤ 30 * (prTail es).length
+  | [], _ => by simp [fuelOfL]
+  | e :: es, h => by
+    obtain ⟨he, hes⟩ : Frag env e ∧ FragL env es := h
+    have := fuel_bound e he
+    have := fuelL_bound es hes
+    simp [fuelOfL, prTail]; omega
 end
 
 end Drx.Spec
